@@ -330,13 +330,14 @@ def run(tier, seed, build):
             res.count("verdict:" + v.split(":")[0])
             res.violations.append({"signature": v, "case": case, "impl": im, "spec": spec})
     end_to_end(res, rng, 120 if tier == "quick" else 1500)
+    source_stage(res, random.Random(seed + 40404), 900 if tier == "quick" else 9000, model)
     # ---- what the property says about the USE of the swaps (outside construct_call_swaps): the substitution
     # applied when inlining (simultaneous, the implicit `self` of an initialiser) and the arity diagnostic
     # reaching the user for every resolved call (callees with an empty IR included), through the real pipeline
     from props import c04e2e
     c04e2e.unbind_stage(res, random.Random(seed + 404), 600 if tier == "quick" else 6000, model)
     c04e2e.module_stage(res, random.Random(seed + 4040), 36 if tier == "quick" else 600, model,
-                        cli_sample=4 if tier == "quick" else 30)
+                        cli_sample=8 if tier == "quick" else 40)
     res.rule += ("; substitution stage: (signature, accepted call whose arguments are the callee's own parameter names "
                  "permuted / overlapping, callee IR rooted at the parameters) through construct_call_swaps ; "
                  "unbind_ir_with_call_swaps vs Lean Swaps.construct ; Results.unbindIr vs CPython's binding; module stage: "
@@ -344,6 +345,12 @@ def run(tier, seed, build):
                  "two-hop permutations, class initialisers stored into names / attributes / subscripts / annotated targets / "
                  "self.member / returned / not stored, callees with an EMPTY IR called legally and illegally) in the target "
                  "file (also vs the Lean pipeline model) and in a followed import, in-process and through the CLI")
+    res.rule += ("; source stage: (signature, call AS WRITTEN: explicit part as above with source-expressible values, `**mapping` "
+                 "entries before / between / after the explicit keywords (one or two), `*iterable` among the positionals, optional "
+                 "implicit self) x (-w all/default/local/none, --strict) through the real CallArguments.from_call ; "
+                 "construct_call_swaps ; error.error vs Lean SrcCall.toArgs ; Swaps.construct ; SrcCall.arityShown; module stage "
+                 "also: every (variant, warning level) pair, unpackings in the generated calls, the diagnostics judged on what "
+                 "stderr SHOWS")
     res.assumptions = [
         "a real call of a real function with that signature is Python's binding rule",
         "[interp] a call Python rejects only for a missing required argument need not be diagnosed (rattr's CallInterface has no defaults)",
@@ -352,6 +359,14 @@ def run(tier, seed, build):
         "a diagnostic is attributed to a call by its line; static-method callees only where the call is resolved "
         "(class defined before the caller; not through `from m import K`)",
         "[interp] the one-step unrolling of a recursive call is demanded, the rest of its orbit is allowed (C03's subject)",
+        "[interp] a call with `**mapping` / `*iterable` entries is judged on the instance in which every unpacked object is empty "
+        "(its explicit part): CPython accepts that instance iff it accepts the explicit part, an arity rejection of the explicit part "
+        "is a rejection of every instance; parameters the explicit part leaves open may stay unmapped",
+        "[interp] `*iterable`: rattr announces it does not support the call (one error per unpacking, demanded, shown at every "
+        "warning level); only the parameters CPython binds in EVERY instance are demanded (positionals written before the first "
+        "unpacking, keyword-only parameters); no demand on further arity diagnostics of such a call",
+        "errors are shown at every warning level (rattr -h: 'errors and fatal errors are always shown'); under --strict the first "
+        "error is a fatal line",
     ]
     return res
 
@@ -417,9 +432,266 @@ def end_to_end(res, rng, n):
             res.count("end-to-end:holds")
 
 
+# ------------------------------------------------------------------ the call AS WRITTEN, the diagnostic AS SHOWN
+
+SRC_CONFIGS = [("all", False), ("default", False), ("local", False), ("none", False), ("none", True), ("default", True)]
+
+
+def _src_case(rng):
+    """(signature, call as written): the explicit part from `random_case` with source-expressible values,
+    `**mapping` unpackings at any position among the keywords, `*iterable` among the positionals, an optional
+    implicit `self` (the initialiser form of `from_call`)."""
+    from props import c04e2e as e2
+
+    sig, call = random_case(rng)
+    vals = ["x%d", "x%d", "q.attr%d", "t[%d].f", "o.p.q%d"]
+    call = {"args": [rng.choice(vals) % i for i in range(len(call["args"]))],
+            "kwargs": [[k, rng.choice(["v_" + k, "w." + k, "d['" + k + "']"])] for k, _ in call["kwargs"]]}
+    call = e2.decorate(rng, call, 0.65, 0.2)
+    self_ = rng.choice([None, None, None, "inst", "o.field"])
+    return sig, call, self_
+
+
+def _run_src(sig, call, self_, strict):
+    """the real `CallArguments.from_call` on the parsed text, then the real `construct_call_swaps`"""
+    import ast
+    from props import c04e2e as e2
+
+    text = f"callee({e2.call_text(call)})"
+    node = ast.parse(text).body[0].value
+    s = with_self_sig(sig) if self_ else sig
+    iface = CallInterface(posonlyargs=[p["name"] for p in s["posonly"]], args=[p["name"] for p in s["args"]],
+                          vararg=s["vararg"], kwonlyargs=[p["name"] for p in s["kwonly"]], kwarg=s["kwarg"])
+    with enter_file(impl.Path("target.py")):
+        func = Func(name="callee", interface=iface)
+        with impl.Tap() as tap0:
+            # the recording happens in the file the call is written in; under --strict its own error is fatal
+            rec_out = impl.outcome_of(CallArguments.from_call, node, self=self_)
+    if rec_out[0] != "ok":
+        return {"text": text, "recording": list(rec_out[:2]), "recording_events": tap0.events,
+                "recording_printed": [e["level"] for e in tap0.printed]}
+    with enter_file(impl.Path("target.py")):
+        c = Call(name="callee", args=rec_out[1])
+    with impl.Tap() as tap:
+        out = impl.outcome_of(construct_call_swaps, func, c)
+    r = {"text": text, "recorded": {"args": list(rec_out[1].args), "kwargs": [list(kv) for kv in rec_out[1].kwargs.items()]},
+         "recording_events": tap0.events, "recording_printed": [e["level"] for e in tap0.printed],
+         "diags": [classify_diag(e) for e in tap.events], "levels": sorted({e["level"] for e in tap.events}),
+         "printed": [e["level"] for e in tap.printed if "call to" in e["message"]],
+         "exited": out[0] == "fatal"}
+    if out[0] == "ok":
+        r["swaps"] = sorted([k, v] for k, v in out[1].items())
+    elif out[0] != "fatal" or not strict:
+        r["outcome"] = list(out[:2]) + [str(out[2]) if len(out) > 2 else ""]
+    return r
+
+
+def with_self_sig(sig):
+    from props import c04e2e as e2
+    return e2.with_self(sig, "self")
+
+
+def source_stage(res, rng, n, model):
+    """`CallArguments.from_call` (the call as written -> the recorded call) ; `construct_call_swaps` ; `error.error`
+    (the diagnostic -> stderr) under every warning level and --strict: real code vs the Lean model
+    (`SrcCall.toArgs`, `Swaps.construct`, `SrcCall.arityShown`), and the oracles: the recorded call is the explicit
+    part of the written one; CPython's binding of the explicit part; an error line is PRINTED for a rejected call."""
+    from props import c04e2e as e2
+
+    cases = [_src_case(rng) for _ in range(n)]
+    # a fixed family first: one signature, `**m` before / between / after the explicit keywords, twice, and `*it`
+    fam_sig = {"posonly": [{"name": "a", "default": False}], "args": [{"name": "b", "default": True}], "vararg": None,
+               "kwonly": [{"name": "c", "default": True}, {"name": "d", "default": True}], "kwarg": "kw"}
+    fam = []
+    for kws in ([], [["c", "v_c"]], [["c", "v_c"], ["d", "v_d"]], [["d", "v_d"], ["zz", "v_zz"], ["c", "v_c"]]):
+        for idxs in [[i] for i in range(len(kws) + 1)] + [[0, len(kws)]]:
+            fam.append((fam_sig, {"args": ["x0"], "kwargs": kws, "dstar": [[i, e] for i, e in zip(idxs, ["opts", "o.extra"])]}, None))
+    for i in (0, 1, 2):
+        fam.append((fam_sig, {"args": ["x0", "x1"], "kwargs": [["c", "v_c"]], "star": [[i, "xs"]]}, None))
+    # rejected calls (too many positionals / unexpected keyword / twice bound) with an unpacking next to the culprit
+    nokw = dict(fam_sig, kwarg=None)
+    fam += [(nokw, {"args": ["x0", "x1", "x2"], "kwargs": [], "dstar": [[0, "opts"]]}, None),
+            (nokw, {"args": ["x0"], "kwargs": [["zz", "v"]], "dstar": [[0, "opts"]]}, None),
+            (nokw, {"args": ["x0", "x1"], "kwargs": [["b", "v"]], "dstar": [[1, "opts"]]}, "inst")]
+    cases = fam + cases
+    reqs, meta = [], []
+    for k, (sig, call, self_) in enumerate(cases):
+        warn, strict = SRC_CONFIGS[k % len(SRC_CONFIGS)]
+        star = call.get("star") or []
+        pos = []
+        for i, a in enumerate(list(call["args"]) + [None]):
+            pos += [[True, "*" + e2.spelled(e)] for j, e in star if j == i]
+            if a is not None:
+                pos.append([False, e2.spelled(a)])
+        kws = []
+        for i, kv in enumerate(list(call["kwargs"]) + [None]):
+            kws += [[None, e2.spelled(e)] for j, e in (call.get("dstar") or []) if j == i]
+            if kv is not None:
+                kws.append([kv[0], e2.spelled(kv[1])])
+        s = with_self_sig(sig) if self_ else sig
+        explicit = {"args": ([self_] if self_ else []) + [e2.spelled(a) for a in call["args"]],
+                    "kwargs": [[k_, e2.spelled(v)] for k_, v in call["kwargs"]]}
+        reqs.append(("swaps", {"sig": s, "src": {"pos": pos, "kws": kws, "self": self_}, "cfg": {"warn": warn, "strict": strict}}))
+        reqs.append(("swaps", {"sig": s, "call": explicit}))
+        meta.append((s, explicit, pos, warn, strict))
+    outs = model.batch(reqs)
+    by_cfg = {}
+    for k in range(len(cases)):
+        by_cfg.setdefault(SRC_CONFIGS[k % len(SRC_CONFIGS)], []).append(k)
+    ims = {}
+    for (warn, strict), ks in by_cfg.items():
+        impl.reset_config(_warning_level=warn, is_strict=strict)
+        for k in ks:
+            sig, call, self_ = cases[k]
+            ims[k] = _run_src(sig, call, self_, strict)
+    impl.reset_config()
+    for k, (sig, call, self_) in enumerate(cases):
+        s, explicit, pos, warn, strict = meta[k]
+        mo, me = outs[2 * k], outs[2 * k + 1]
+        im = ims[k]
+        res.evaluations += 1
+        case = {"stage": "source", "sig": py_source(s), "call_as_written": im["text"], "implicit_self": self_,
+                "warning_level": warn, "strict": strict}
+        res.nontrivial.add(common.digest(case))
+        for u in e2.unpack_features(call) or ["no-unpacking"]:
+            res.count("source:" + u)
+        res.count(f"source:config:-w {warn}" + (" --strict" if strict else ""))
+        starred = bool(call.get("star"))
+        pb = python_bind(s, explicit)
+        if "__error__" in mo or "__error__" in me:
+            res.disagreements.append({"case": case, "impl": im, "model": mo if "__error__" in mo else me})
+            continue
+        sp = me["spec"]
+        if pb[0] == "ok":
+            ok = "ok" in sp and sorted(sp["ok"]["explicit"]) == sorted(pb[1]) and sp["ok"]["varargGot"] == pb[2] \
+                and sorted(sp["ok"]["kwargGot"]) == sorted(pb[3])
+        else:
+            ok = "err" in sp and (sp["err"] == "missingRequired") == (pb[1] == "missingRequired")
+        if not ok:
+            res.internal_errors.append({"what": "Spec.pyBind disagrees with CPython (source stage)", "case": case, "python": pb, "spec": sp})
+            continue
+        if "recording" in im:
+            # --strict and `*iterable`: the recording's own error is fatal — shown, nothing is bound
+            if not (strict and starred and im["recording"][0] == "fatal" and "fatal" in im["recording_printed"]):
+                res.violations.append({"signature": "source-call:recording-failed:" + str(im["recording"][1]), "case": case, "impl": im})
+            else:
+                res.count("source:verdict:strict-starred-fatal-shown")
+            continue
+        # ---- correspondence: recorded call, swaps, diagnostics, what is printed
+        mm = {"recorded": mo["recorded"], "starredErrors": mo["starredErrors"], "diags": mo["diags"], "printed": mo["printed"], "exited": mo["exited"]}
+        ii = {"recorded": im["recorded"], "starredErrors": len([e for e in im["recording_events"] if e["level"] == "error"]),
+              "diags": im["diags"][:1] if (strict and im["exited"]) else im["diags"], "printed": im["printed"], "exited": im["exited"]}
+        if strict and mo["exited"]:
+            mm["diags"] = mm["diags"][:1]           # the first error is fatal under --strict
+        if not im["exited"]:
+            mm["swaps"], ii["swaps"] = sorted(mo["swaps"]), im.get("swaps")
+        if mm != ii:
+            res.disagreements.append({"case": case, "impl": ii, "model": mm})
+        if "outcome" in im:
+            res.violations.append({"signature": f"source-call:crash:{im['outcome'][1]}", "case": case, "impl": im})
+            continue
+        # ---- oracle 1: the recorded call IS the written call (unpackings looked through, nothing else dropped)
+        want_rec = {"args": ([self_] if self_ else []) + [x for _, x in pos], "kwargs": explicit["kwargs"]}
+        if im["recorded"] != want_rec:
+            lost = [k_ for k_, _ in explicit["kwargs"] if k_ not in dict(map(tuple, im["recorded"]["kwargs"]))]
+            d_idx = [j for j, _ in call.get("dstar") or []]
+            after = [k_ for i, (k_, _) in enumerate(explicit["kwargs"]) if k_ in lost and d_idx and min(d_idx) <= i]
+            what = ("explicit-keyword-written-after-a-dict-unpacking-lost" if lost and after == lost else
+                    "explicit-keyword-lost" if lost else
+                    "positional-arguments-differ" if im["recorded"]["args"] != want_rec["args"] else "keywords-differ")
+            res.count("source:verdict:recorded-call-differs")
+            res.violations.append({"signature": "source-call:recorded-call-differs-from-written-call:" + what, "case": case,
+                                   "expected": want_rec, "recorded": im["recorded"]})
+            continue
+        if starred:
+            # [interp] `*iterable`: rattr announces the call as unsupported (an error per unpacking, checked by the
+            # correspondence above and demanded here); CPython fixes only the positionals before the unpacking
+            if ii["starredErrors"] < 1 or "error" not in im["recording_printed"]:
+                res.violations.append({"signature": f"source-call:iterable-unpacking-not-announced:warning-level-{warn}", "case": case, "impl": im})
+            elif not im["exited"] and pb[0] == "ok":
+                first = min(j for j, _ in call["star"]) + (1 if self_ else 0)
+                names = [p["name"] for p in s["posonly"] + s["args"]][:first]
+                sw = dict(map(tuple, im["swaps"]))
+                bad = [n_ for n_, a in zip(names, explicit["args"]) if im["swaps"] and sw.get(n_) != a]
+                if bad and im["diags"] and im["diags"][0]["k"] == "posonlyShort":
+                    bad = []
+                if bad:
+                    res.violations.append({"signature": "source-call:positional-before-iterable-unpacking-misbound", "case": case, "impl": im})
+                else:
+                    res.count("source:verdict:starred-holds")
+            continue
+        # ---- oracle 2: CPython's binding of the explicit part, on the real swaps (only when not cut short by --strict)
+        if not im["exited"]:
+            v = judge(s, explicit, {"swaps": im["swaps"], "diags": im["diags"], "levels": im["levels"]}, sp)
+            if isinstance(v, str):
+                res.count("source:verdict:" + v.split(":")[0])
+                res.violations.append({"signature": v, "case": case, "impl": im, "spec": sp,
+                                       "unpackings": e2.unpack_features(call)})
+                continue
+        # ---- oracle 3: a rejected call puts an error (fatal under --strict) line on stderr at EVERY warning level
+        if pb[0] == "err" and pb[1] == "arity":
+            if not [l for l in im["printed"] if l in ("error", "fatal")]:
+                res.count("source:verdict:rejected-call-diagnostic-not-shown")
+                res.violations.append({"signature": f"rejected-call-diagnostic-raised-but-not-shown:warning-level-{warn}" + (":strict" if strict else ""),
+                                       "case": case, "impl": im})
+                continue
+        res.count("source:verdict:holds")
+
+
+def sig_from_source(src):
+    """the signature dict of `def callee(...): pass` (inverse of `py_source`)"""
+    import ast
+    a = ast.parse(src).body[0].args
+    pos = a.posonlyargs + a.args
+    dpos = [i >= len(pos) - len(a.defaults) for i in range(len(pos))]
+    return {"posonly": [{"name": x.arg, "default": dpos[i]} for i, x in enumerate(a.posonlyargs)],
+            "args": [{"name": x.arg, "default": dpos[len(a.posonlyargs) + i]} for i, x in enumerate(a.args)],
+            "vararg": a.vararg.arg if a.vararg else None,
+            "kwonly": [{"name": x.arg, "default": d is not None} for x, d in zip(a.kwonlyargs, a.kw_defaults)],
+            "kwarg": a.kwarg.arg if a.kwarg else None}
+
+
+def replay_source(j):
+    """re-run a stored source-stage input against the current tree"""
+    import ast
+    import json
+    case = j["case"]
+    sig = sig_from_source(case["sig"])
+    node = ast.parse(case["call_as_written"]).body[0].value
+    impl.reset_config(_warning_level=case["warning_level"], is_strict=case["strict"])
+    iface = CallInterface(posonlyargs=[p["name"] for p in sig["posonly"]], args=[p["name"] for p in sig["args"]],
+                          vararg=sig["vararg"], kwonlyargs=[p["name"] for p in sig["kwonly"]], kwarg=sig["kwarg"])
+    print("signature:", j["signature"])
+    print(case["sig"], " <- ", case["call_as_written"], "| implicit self:", case["implicit_self"],
+          "| -w", case["warning_level"], "--strict" if case["strict"] else "")
+    with enter_file(impl.Path("target.py")):
+        func = Func(name="callee", interface=iface)
+        with impl.Tap() as t0:
+            rec_out = impl.outcome_of(CallArguments.from_call, node, self=case["implicit_self"])
+    if rec_out[0] != "ok":
+        print(" recording:", rec_out[:2], [e["level"] for e in t0.printed])
+        return 0
+    print(" recorded call now: args", list(rec_out[1].args), "kwargs", dict(rec_out[1].kwargs))
+    if "expected" in j:
+        print(" expected         : args", j["expected"]["args"], "kwargs", dict(map(tuple, j["expected"]["kwargs"])))
+    with enter_file(impl.Path("target.py")):
+        c = Call(name="callee", args=rec_out[1])
+    with impl.Tap() as tap:
+        out = impl.outcome_of(construct_call_swaps, func, c)
+    print(" construct_call_swaps now:", out[:2])
+    print(" diagnostics raised now  :", [(e["level"], e["message"]) for e in tap.events])
+    print(" lines on stderr now     :", [(e["level"], e["message"]) for e in tap.printed])
+    explicit = {"args": list(rec_out[1].args), "kwargs": [list(kv) for kv in rec_out[1].kwargs.items()]}
+    print(" CPython on the recorded call:", json.dumps(python_bind(sig, explicit)))
+    impl.reset_config()
+    return 0
+
+
 def replay(path):
     import json
     j = json.load(open(path))
+    if isinstance(j.get("case"), dict) and j["case"].get("stage") == "source":
+        return replay_source(j)
     if isinstance(j.get("case"), dict) and j["case"].get("stage") == "module":
         from props import c04e2e
         return c04e2e.replay_case(j)
